@@ -266,6 +266,12 @@ def run(ctx: Context) -> None:
         fn(subx, sites)
         for i in subx.instances:
             ctx.add("R7", i.key.split("/", 2)[2], i.ok, i.where, i.detail)
+    # formatting / logging between two effects is taken as total by the path engine: rendering methods cannot raise (C04/R6)
+    sub4 = Context("C04", ctx.repo, ctx.tier, ctx.seed)
+    sub4._resolver = ctx._resolver
+    c04.r6(sub4)
+    for i in sub4.instances:
+        ctx.add("R7", i.key.split("/", 2)[2], i.ok, i.where, i.detail)
     ctx.floor("R7", "shared obligations", ctx.count("R7"), 30)
     ctx.exhaustive = False
     ctx.not_decided += [
